@@ -183,7 +183,7 @@ def equiv(a, b, objs, ty=None, S=None, depth=0):
 
 # ---------------------------------------------------------------------------------------------- generators
 
-MODELLED_HAND = {"Date": 0, "Rectangle": 1, "Matrix": 2, "Action": 3, "NameTree<Primitive>": 4}
+MODELLED_HAND = {"Date": 0, "Rectangle": 1, "Matrix": 2, "Action": 3, "NameTree<Primitive>": 4, "PagesRc": 5}
 
 
 class Gen:
